@@ -71,7 +71,7 @@ P("C02", level="proof", design_ref="7/C02", units=uniq(GF + ["L.gf.single", "L.g
        "over those contracts with every coefficient, position and value symbolic; the decoders' and polyseed_load's contracts show the "
        "checksum status is returned exactly when the evaluation is non-zero, before any allocation (decoders) and with no seed surviving.",
   note="'another word of the same list' = another coefficient by the closed fact T.distinct (all words pairwise distinct under the comparer).")
-P("C03", level="proof", design_ref="7/C03", units=uniq(["U.gf.pack", "U.gf.encode", "L.gf.unique", "U.api.encode", "U.str.write", "U.str.write.full", "U.api.create", "L.rt.index"] + ["U.api.encode@ndebug", "U.api.create@ndebug"]), engines=["tables", "statics", "calls"],
+P("C03", level="proof", design_ref="7/C03", units=uniq(uniq(["U.gf.pack", "U.gf.encode", "L.gf.unique", "U.api.encode", "U.str.write", "U.str.write.full", "U.api.create", "L.rt.index"] + ["U.api.encode@ndebug", "U.api.create@ndebug"]) + ["U.str.nfkd_lazy"]), engines=["tables", "statics", "calls"],
   technique='CBMC 6.11 contracts: dfcc-enforced contract of polyseed_data_to_poly against the published layout written independently; harness-enforced sequence contract of polyseed_encode; write_str proved with a woven loop invariant; registry/golden facts exhaustive; goto symbol-table scan for hidden state (purity)',
   text="polyseed_data_to_poly is proved equal to the published layout written independently in spec.h (check word first, 10 secret bits MSB "
        "first + one feature/birthday bit per word); polyseed_encode is proved to use the stored check value as word 1, XOR the coin into word 2 "
@@ -204,6 +204,21 @@ P("C20", level="other", design_ref="7/C20", units=uniq(API_D + DEC + ["U.api.cry
   note="Meta-argument (not machine-checked): threads that only read shared locations and write disjoint objects are race-free and observe "
        "serial results; injected functions' thread-safety is the caller's. No interleaving is executed.",
   not_decided=["actual interleavings / ThreadSanitizer-style dynamic exploration"])
+
+# ---------------------------------------------------------------------------------------------------------------------
+# CORE: every property is an end-to-end statement about the API, so a change in any layer can break it.  The seeded-change
+# rounds (DESIGN 12.7) showed that a list restricted to the units that "own" a property's mechanism misses changes made
+# elsewhere on the call path.  Every check therefore also runs all the cheap units (each < 10 s, plus create / load); the
+# expensive ones (tokeniser, write_str, encode, comparers, search, phrase decoders, lazy NFKD) stay listed per property.
+CORE = GF + PACK + ["L.gf.single", "L.gf.swap", "L.gf.unique", "L.gf.coin", "U.st.store", "U.st.load", "L.st.inv1", "L.st.inv2",
+        "U.bd.encode", "U.bd.decode"] + FT + API_D + DEC + ["U.api.crypt", "L.crypt.involution", "L.crypt.wrongpw", "L.rt.index",
+        "L.kdf.injective", "U.dep.inject", "U.dep.stdlib_time", "U.lang.get_comparer", "U.lang.registry", "L.cmp.order", "L.cmpf.axioms",
+        "B.str.nfkd_lazy", "B.cmp.str", "B.cmp.prefix",
+        "U.api.free@ndebug", "U.api.create@ndebug", "U.api.load@ndebug", "U.api.crypt@ndebug", "U.api.decode@ndebug",
+        "U.api.decode_explicit@ndebug", "U.api.keygen@ndebug", "U.dep.inject@ndebug", "U.api.store@ndebug"]
+for _pid, _p in PROPS.items():
+    _p["own_units"] = list(_p.get("units", []))
+    _p["units"] = uniq(_p.get("units", []) + CORE)
 
 NOT_APPLICABLE = {}
 HOOK_COMMITS = []
